@@ -28,10 +28,12 @@ def summaries(out):
     return res
 
 
-def drive(ctx, zr, driver, name, args, parts, timeout=1800, prefix="t"):
+def drive(ctx, zr, driver, name, args, parts, timeout=None, prefix="t"):
     """Run one driver invocation; returns (summary dict or None, [trace files])."""
     d = ctx.sub("run-" + name)
     argv = [zr, driver, "-o", os.path.join(d, prefix), "-parts", str(parts)] + args
+    if timeout is None:
+        timeout = 900 if ctx.quick() else 3000
     for attempt in (1, 2):
         rc, out = V.run(ctx, argv, timeout=timeout, env={"ZR_SCRATCH": d})
         summ = summaries(out)
@@ -85,6 +87,9 @@ def classify_det(seg, stage):
     runs = [x for x in seg if x.get("ev") == "run"]
     names = _names(logev)
     sig = {"stage": stage, "event": e.get("ev"), "kind": logev.get("kind", "").split(":")[0]}
+    if e.get("ev") == "hung":
+        sig["class"] = "hung"
+        return sig
     if e.get("ev") == "panic":
         sig["class"] = "panic"
         sig["cmd"] = names.get(e.get("idx"), ("?", 0))[0]
